@@ -132,6 +132,30 @@ PROPS = {
         "assumptions": ROUTER_ASSUMPTIONS,
         "min_outcomes": 5,
     },
+    "C16": {'level': 'exploration',
+     'technique': 'exhaustive enumeration of type definitions (programs) from a bounded attribute grammar, compiled against the current tree; per type every '
+                  'generated value and every key-deletion probe is compared with the derived schema (serde itself is the oracle, jsonschema Draft 2020-12 '
+                  'validates)',
+     'engine': 'schema_mc (lib/c16_runner.py: generated cargo crate + python3-vt jsonschema judge)',
+     'custom_runner': 'c16_runner',
+     'level_text': 'Bounded exhaustive exploration over programs: every type of the attribute grammar stated in coverage.bounds (field-name styles x rename_all '
+                   'rules x field attributes x field types, enum taggings x variant-kind mixes x rename_all / rename_all_fields / variant attributes, container '
+                   'attributes, attributes split over several #[serde] lines) is written out, compiled with derive(Schema) + serde derives against the working '
+                   'tree and examined at run time on every generated value (every variant, every optional member present/absent). Exhaustive within the grammar; '
+                   'nothing is sampled.',
+     'level_note': 'Trusted: serde/serde_json as the oracle of the wire shape (observed, not re-implemented), the jsonschema package for Draft 2020-12 validation, '
+                   'rustc diagnostics for attributing a rejected derive to its type. Types outside the grammar (generics, lifetimes, maps, more than 3 members, '
+                   'attribute combinations beyond pairs) are not covered.',
+     'jobs': {'quick': 8, 'thorough': 8},
+     'wall_cap_s': {'quick': 50, 'thorough': 720},
+     'min_outcomes': 4,
+     'assumptions': ['features rt_tokio,sse,openapi on x86-64 Linux; other runtimes are not built',
+                     'the harness build uses opt-level 2 with debug-assertions and overflow-checks on (profile `verif`), hooks enabled by --cfg ohkami_verif',
+                     'values outside the stated alphabets / bounds are not covered (DESIGN.md section 9)',
+                     "serde 1.0.229 / serde_json as resolved by the lock file define 'what serde reads and writes'; they are observed at run time, not modelled",
+                     "the schema judged is the inline JSON form of <T as Schema>::schema() (components inline; $ref resolution into a document is C15's subject)",
+                     'one-directional members (skip_serializing / skip_deserializing, direction-specific rename) are admitted either way (counted as ambiguous)',
+                     'generated crate is built with opt-level 0 for its own code; ohkami and ohkami_macros come from the shared verif-profile target dir']},
     "C18": {
         "level": "model_checking",
         "technique": "stateless depth-first exploration (CHESS style, preemption-bounded, replay-based) of all interleavings of the real accept-loop poll and the real signal handler at hook-provided scheduling points, with a real SIGINT, one fresh process per schedule; plus exhaustive enumeration of session mixes x completion orders",
@@ -170,7 +194,9 @@ PROPS = {
 HOOK_COMMITS = ["4846d14", "4c64919", "461eacc"]
 
 ENGINES = [
-    {"name": "vmc", "path": "/verif/harness/src/bin/vmc.rs", "serves_properties": sorted(PROPS.keys()),
+    {"name": "schema_mc", "path": "/verif/lib/c16_runner.py", "serves_properties": ["C16"],
+     "kind_free_text": "python plug-in of ./check: enumerates type definitions from a bounded attribute grammar (lib/c16_gen.py), compiles them against the current tree, observes serde and the derived schema at run time (c16/common.rs), judges with jsonschema under python3-vt (lib/c16_check.py)"},
+    {"name": "vmc", "path": "/verif/harness/src/bin/vmc.rs", "serves_properties": sorted(k for k in PROPS.keys() if k != "C16"),
      "kind_free_text": "hand-rolled stateless explorers in Rust linking the real ohkami crates by path; one module per property under harness/src/engines; worker processes sharded by the python driver ./check"},
 ]
 
